@@ -215,6 +215,9 @@ func runSessionPlan(t *testing.T, plan *SessionPlan, tape *rt.Tape, strat rt.Str
 		if obs.C2S.Coalesced+obs.S2C.Coalesced > 0 {
 			rec.Faults["coalesce"] = obs.C2S.Coalesced + obs.S2C.Coalesced
 		}
+		if n := obs.C2S.EOFsWithData + obs.S2C.EOFsWithData; n > 0 {
+			rec.Faults["eof-with-data"] = n
+		}
 		if plan.C2S.Latency > 0 || plan.S2C.Latency > 0 {
 			rec.Faults["latency"] = 1
 		}
